@@ -102,6 +102,75 @@ def _missing_attribute(owner, name):
     raise symx.EngineUnsupported(f"the library model {owner} does not cover `{name}`")
 
 
+_RAISE_LINES = {}
+
+
+def _raise_lines(filename):
+    """line numbers covered by `raise` statements of a model source file (deliberate, xarray-mimicking errors)"""
+    if filename not in _RAISE_LINES:
+        import ast
+        s = set()
+        try:
+            with open(filename) as f:
+                tree = ast.parse(f.read())
+            for n in ast.walk(tree):
+                if isinstance(n, ast.Raise):
+                    s.update(range(n.lineno, (n.end_lineno or n.lineno) + 1))
+        except (OSError, SyntaxError):
+            pass
+        _RAISE_LINES[filename] = s
+    return _RAISE_LINES[filename]
+
+
+def _incidental_model_error(e):
+    """True iff `e` was NOT raised by a `raise` statement but happened incidentally inside the library models (an input
+    they were not written for): a limit of the model, to be reported as undecided, never as behaviour of the code under proof"""
+    tb = e.__traceback__
+    last = None
+    while tb is not None:
+        last = tb
+        tb = tb.tb_next
+    if last is None:
+        return False
+    fn = last.tb_frame.f_code.co_filename
+    if not (fn.endswith("/vp/mxr.py") or fn.endswith("/vp/kern.py")):
+        return False
+    return last.tb_lineno not in _raise_lines(fn)
+
+
+def _guard(fn):
+    import functools
+
+    @functools.wraps(fn)
+    def wrapper(*a, **k):
+        try:
+            return fn(*a, **k)
+        except (symx.EngineUnsupported, symx.InfeasiblePath, symx.PathAbort):
+            raise
+        except Exception as e:  # noqa
+            if _incidental_model_error(e):
+                raise symx.EngineUnsupported(f"the library model failed inside {fn.__qualname__}: {type(e).__name__}: {e}") from e
+            raise
+    wrapper.__guarded__ = True
+    return wrapper
+
+
+def guard_model_class(cls):
+    """wrap every public method / static function of a model class with _guard"""
+    for name, obj in list(vars(cls).items()):
+        if name.startswith("__") and name not in ("__getitem__", "__add__", "__radd__", "__sub__", "__rsub__", "__mul__", "__rmul__", "__truediv__", "__rtruediv__", "__neg__"):
+            continue
+        if name in ("__getattr__",):
+            continue
+        if isinstance(obj, staticmethod):
+            setattr(cls, name, staticmethod(_guard(obj.__func__)))
+        elif isinstance(obj, classmethod) or isinstance(obj, property) or isinstance(obj, type):
+            continue
+        elif callable(obj) and not getattr(obj, "__guarded__", False):
+            setattr(cls, name, _guard(obj))
+    return cls
+
+
 class _ModelNamespace(type):
     def __getattr__(cls, name):
         _missing_attribute(cls.__name__, name)
@@ -143,9 +212,19 @@ class Coords:
         return Coords(self._d)
 
 
-class _VariableView:
+class _VariableView(_ModelObject):
+    """`da.variable`: the array's dims / values / attrs without its coordinates"""
+
     def __init__(self, arr):
         self._arr = arr
+
+    @property
+    def dims(self):
+        return self._arr.dims
+
+    @property
+    def attrs(self):
+        return self._arr.attrs
 
     @property
     def chunksizes(self):
@@ -357,6 +436,9 @@ class MArr(_ModelObject):
         new.update(kw)
         out = self.coords.copy()
         for k, v in new.items():
+            if isinstance(v, _VariableView):
+                # a bare Variable: same dims, values, attributes (content token) as the array it was taken from
+                v = v._arr
             if isinstance(v, MArr):
                 for d in v.dims:
                     if d in self.sizes:
@@ -373,10 +455,12 @@ class MArr(_ModelObject):
                     raise ValueError(f"conflicting sizes for dimension {k!r}")
                 out._d[k] = MArr((k,), {k: v.shape[0]}, (lambda v, k: lambda idx: v._elem((idx[k],)))(v, k), name=k,
                                  tok=("from-array", next(_uid)))
-            else:
+            elif isinstance(v, tuple) and v and v[0] in ("full_like", "np.array") and k in self.sizes:
                 # raw values (np.full_like(..., nan) in padding): dimension coordinate named k
                 out._d[k] = MArr((k,), {k: self.sizes[k]}, lambda idx: z3.RealVal(0), name=k,
                                  tok=("raw", next(_uid)))
+            else:
+                raise EngineUnsupported(f"assign_coords with a value of type {type(v).__name__} for {k!r}")
         return self._new(self.dims, self.sizes, self._elem, coords=out, tok=self.tok)
 
     # ---- indexing -------------------------------------------------------------------------
@@ -1424,3 +1508,8 @@ class MDataset(_ModelObject):
 
 
 XRModel.Dataset = MDataset
+
+
+for _cls in (MArr, NArr, BArr, MDataset, XRModel, NPModel):
+    guard_model_class(_cls)
+apply_ufunc_model = _guard(apply_ufunc_model)
